@@ -4,7 +4,7 @@
 use crate::json::J;
 use crate::{Report, Violation};
 
-const ALPHABET: [char; 10] = ['a', ' ', '"', '\\', '$', '`', '!', '*', '\n', '\r'];
+const ALPHABET: [char; 12] = ['a', ' ', '"', '\\', '$', '`', '!', '*', '\n', '\r', 'é', '€'];
 
 fn body(t: &[char], esc: &dyn Fn(char) -> Option<Option<char>>, expanders: &[char], escape_char: char, dq_doubling: bool) -> Option<Vec<char>> {
     // generic double-quote body decoder; `esc(d)` for the char after the escape character:
@@ -114,7 +114,24 @@ pub fn run(thorough: bool) -> Report {
             let s: String = cur.iter().map(|&i| ALPHABET[i]).collect();
             for shell in ["bash", "fish", "zsh", "pwsh", "dot"] {
                 rep.cases += 1;
-                let enc = encode(shell, &s);
+                // a panic of the real function (e.g. slicing inside a multi-byte character) is a failed round trip, with its input
+                let enc = match std::panic::catch_unwind(|| encode(shell, &s)) {
+                    Ok(e) => e,
+                    Err(_) => {
+                        if rep.violations.len() < 200 {
+                            rep.violations.push(Violation {
+                                obligation: obligation(shell),
+                                what: format!("{shell} make_string_constant({s:?}) panicked"),
+                                input: J::obj(vec![("shell", J::s(shell)), ("text", J::s(&s))]),
+                                expected: J::s(&s),
+                                actual: J::s("<panic>"),
+                                signature: format!("{}|{:?}", obligation(shell), s),
+                                replay_args: vec!["c07_strings".into(), shell.into(), s.clone()],
+                            });
+                        }
+                        continue;
+                    }
+                };
                 let dec = decode(shell, &enc);
                 if enc.len() != s.len() + 2 {
                     rep.distinct_nontrivial += 1; // at least one character needed escaping
